@@ -382,6 +382,8 @@ package rosmar
 //@
 //@ fn (*Collection).enqueueBackfillEvents
 //@   modular
+//@   variant pool db=pool
+//@   variant closed db=closed
 //@   requires c.id >= 1
 //@   requires forall o: DocId :: DocInv(docAt(o)) && (docAt(o).present ==> docAt(o).exp == 0 || docAt(o).exp > 2592000)
 //@   requires q != nil
@@ -442,9 +444,9 @@ package rosmar
 //@   let bf = args.Backfill != 18446744073709551615
 //@   let resume = args.Backfill == 1
 //@   ensures [C15:StartDCPFeed.resume-needs-prefix] resume && args.CheckpointPrefix == "" ==> result != nil && count("spawn") == 0 && count("call:Collection.enqueueBackfillEvents") == 0
-//@   ensures [C15:StartDCPFeed.resume-from] result == nil && resume ==> count("call:dcpFeed.readCheckpoint") == 1 && callarg("Collection.enqueueBackfillEvents", 1) == (callarg("dcpFeed.readCheckpoint", 0).lastCas + 1) % 18446744073709551616
-//@   ensures [C09:StartDCPFeed.backfill-from] result == nil && bf && !resume ==> callarg("Collection.enqueueBackfillEvents", 1) == args.Backfill
-//@   ensures [C09:StartDCPFeed.keysonly]      result == nil && bf ==> callarg("Collection.enqueueBackfillEvents", 2) == args.KeysOnly && callarg("Collection.enqueueBackfillEvents", 0) == c
+//@   ensures [C15:StartDCPFeed.resume-from] result == nil && resume ==> count("call:dcpFeed.readCheckpoint") == 1 && callarg("Collection.enqueueBackfillEvents", 2) == (callarg("dcpFeed.readCheckpoint", 0).lastCas + 1) % 18446744073709551616
+//@   ensures [C09:StartDCPFeed.backfill-from] result == nil && bf && !resume ==> callarg("Collection.enqueueBackfillEvents", 2) == args.Backfill
+//@   ensures [C09:StartDCPFeed.keysonly]      result == nil && bf ==> callarg("Collection.enqueueBackfillEvents", 3) == args.KeysOnly && callarg("Collection.enqueueBackfillEvents", 0) == c
 //@   ensures [C09:StartDCPFeed.markers]       result == nil && bf ==> pushes()[0].opcode == 0 && pushes()[1].opcode == 1 && pushpos(0) < callpos("Collection.enqueueBackfillEvents") && callpos("Collection.enqueueBackfillEvents") < pushpos(1)
 //@   ensures [C09,C16:StartDCPFeed.push-count] result == nil ==> lenlist(pushes()) == (if bf then 2 else 0) + (if args.Dump then 1 else 0)
 //@   ensures [C16:StartDCPFeed.dump-eof]      (result == nil && args.Dump && bf ==> pushes()[2].isnil) && (result == nil && args.Dump && !bf ==> pushes()[0].isnil)
@@ -453,6 +455,7 @@ package rosmar
 //@   ensures [C08,C15,C16:StartDCPFeed.registers-live] result == nil && !args.Dump ==> count("mapupdate") == 1
 //@   ensures [C16:StartDCPFeed.dump-not-registered]    args.Dump || result != nil ==> count("mapupdate") == 0
 //@   ensures [C09,C15:StartDCPFeed.registers-after-backfill] result == nil && !args.Dump && bf ==> callpos("Collection.enqueueBackfillEvents") < tracepos("mapupdate") && pushpos(1) < tracepos("mapupdate")
+//@   ensures [C09,C15:StartDCPFeed.no-gap-between-backfill-and-registration] result == nil && !args.Dump && bf ==> onecritical("call:Collection.enqueueBackfillEvents", "mapupdate", "bucket.mutex")
 //@   ensures [C15,C16:StartDCPFeed.feed-runs-with-the-callers-arguments] result == nil ==> spawnarg(0).args.Terminator == args.Terminator && spawnarg(0).args.DoneChan == args.DoneChan && spawnarg(0).args.ID == args.ID && spawnarg(0).args.CheckpointPrefix == args.CheckpointPrefix && spawnarg(0).args.Dump == args.Dump && spawnarg(0).args.KeysOnly == args.KeysOnly && spawnarg(0).collection == c
 //@   ensures [C08,C16:StartDCPFeed.registers-before-run] result == nil && !args.Dump ==> tracepos("mapupdate") < tracepos("spawn")
 //@   ensures [C20:StartDCPFeed.unlocked]      any: nolocks()
